@@ -19,10 +19,28 @@ import (
 	"time"
 )
 
-const (
-	verifDir = "/verif"
-	repoDir  = "/repo"
+const verifDir = "/verif"
+
+// repoDir is the repository under test and buildDir the scratch area for generated files, binaries and
+// worker output. Both can be redirected (VERIF_REPO, VERIF_BUILD) to evaluate a scratch worktree without
+// touching /repo; evidence and replays then go under the build directory instead of /verif.
+var (
+	repoDir  = envOr("VERIF_REPO", "/repo")
+	buildDir = envOr("VERIF_BUILD", filepath.Join(verifDir, ".build"))
+	outRoot  = func() string {
+		if os.Getenv("VERIF_BUILD") != "" {
+			return os.Getenv("VERIF_BUILD")
+		}
+		return verifDir
+	}()
 )
+
+func envOr(k, def string) string {
+	if v := os.Getenv(k); v != "" {
+		return v
+	}
+	return def
+}
 
 type checkSpec struct {
 	modDir   string // directory go test runs in
@@ -61,7 +79,8 @@ var checks = map[string]checkSpec{
 	"C02": {modDir: repoDir, pkg: "./internal/upload", test: "TestVerifC02", quickS: 150, thoroS: 1200, gomaxp: "2", floor: 4000, minClass: 8,
 		extra: []leg{{repoDir, "./internal/telemetry", "TestVerifC02Mode", 8}, {repoDir, "./internal/counter", "TestVerifC02Counter", 1}}},
 	"C01": {modDir: repoDir, pkg: "./internal/upload", test: "TestVerifC01", quickS: 150, thoroS: 1200, gomaxp: "2", floor: 5000, minClass: 6},
-	"C05": {modDir: repoDir, pkg: "./internal/counter", test: "TestVerifC05", quickS: 150, thoroS: 1200, gomaxp: "2", floor: 1000, minClass: 6},
+	"C05": {modDir: repoDir, pkg: "./internal/counter", test: "TestVerifC05", quickS: 150, thoroS: 1200, gomaxp: "2", floor: 1000, minClass: 6,
+		extra: []leg{{repoDir, "./internal/upload", "TestVerifC05Upload", 8}}},
 	"C10": {modDir: repoDir, pkg: "./internal/counter", test: "TestVerifC10", quickS: 150, thoroS: 1200, gomaxp: "2", floor: 100000, minClass: 6},
 	"C06": {modDir: repoDir, pkg: "./internal/counter", test: "TestVerifC06", quickS: 120, thoroS: 900, gomaxp: "2", floor: 10000, minClass: 4},
 	"C04": {modDir: repoDir, pkg: "./internal/counter", test: "TestVerifC04", quickS: 240, thoroS: 1500, gomaxp: "2", floor: 1000, minClass: 5},
@@ -200,7 +219,7 @@ func main() {
 	}
 	cleanupDirs = append(cleanupDirs, scratch)
 	defer os.RemoveAll(scratch)
-	outDir := filepath.Join(verifDir, ".build", "out", id)
+	outDir := filepath.Join(buildDir, "out", id)
 	os.RemoveAll(outDir)
 	os.MkdirAll(outDir, 0o755)
 	legs := append([]leg{{spec.modDir, spec.pkg, spec.test, spec.shards}}, spec.extra...)
@@ -309,7 +328,7 @@ func main() {
 		seenViol[v.Sig] = true
 		nviol++
 		h := sha256.Sum256([]byte(v.Sig))
-		dir := filepath.Join(verifDir, "replays", id)
+		dir := filepath.Join(outRoot, "replays", id)
 		os.MkdirAll(dir, 0o755)
 		path := filepath.Join(dir, fmt.Sprintf("%x.json", h[:6]))
 		data, _ := json.MarshalIndent(map[string]any{"property": id, "sig": v.Sig, "msg": v.Msg, "replay": v.Replay}, "", " ")
@@ -366,9 +385,9 @@ func main() {
 		"property_id": id, "tier": tier, "seed": seed, "level": "model_checking",
 		"coverage": cov, "assumptions": m.Assumptions, "wall_s": time.Since(start).Seconds(), "violations": nviol,
 	}
-	os.MkdirAll(filepath.Join(verifDir, "evidence"), 0o755)
+	os.MkdirAll(filepath.Join(outRoot, "evidence"), 0o755)
 	data, _ := json.MarshalIndent(ev, "", " ")
-	if err := os.WriteFile(filepath.Join(verifDir, "evidence", id+".json"), data, 0o644); err != nil {
+	if err := os.WriteFile(filepath.Join(outRoot, "evidence", id+".json"), data, 0o644); err != nil {
 		die(2, "%v", err)
 	}
 	fmt.Printf("%s %s: evaluations=%d transitions=%d states=%d classes=%d exhaustive=%v violations=%d known=%d wall=%.1fs\n",
@@ -478,7 +497,7 @@ var genOnce sync.Once
 
 func gen() {
 	genOnce.Do(func() {
-		out, err := run(verifDir, goEnv(), filepath.Join(verifDir, "bin", "vgen"), "-out", filepath.Join(verifDir, ".build"))
+		out, err := run(verifDir, goEnv(), filepath.Join(verifDir, "bin", "vgen"), "-out", buildDir, "-repo", repoDir)
 		if err != nil {
 			die(2, "vgen failed: %v\n%s", err, out)
 		}
@@ -495,12 +514,12 @@ func buildPkg(id, modDir, pkg string) string {
 	if name == "" {
 		name = "root"
 	}
-	bin := filepath.Join(verifDir, ".build", "bin", name+".test")
+	bin := filepath.Join(buildDir, "bin", name+".test")
 	if built[bin] != "" {
 		return bin
 	}
 	os.MkdirAll(filepath.Dir(bin), 0o755)
-	out, err := run(modDir, goEnv(), "go", "test", "-c", "-overlay", filepath.Join(verifDir, ".build", "overlay.json"),
+	out, err := run(modDir, goEnv(), "go", "test", "-c", "-overlay", filepath.Join(buildDir, "overlay.json"),
 		"-tags", "verif", "-vet=off", "-o", bin, pkg)
 	if err != nil {
 		die(2, "build of %s harness (%s) failed (a rewritten package no longer compiles against the shims?): %v\n%s", id, pkg, err, out)
